@@ -1342,6 +1342,10 @@ class ContactHandler(Messenger, dbus.service.Object):
 
         if transfer_id not in self._tx_map:
             raise RejectError(messages.RejectMsg.Reason.UNEXPECTED)
+        if (flags & messages.TransferSegment.Flag.END
+                and self._tx_map[transfer_id] not in self._tx_pend_ack):
+            # final ACK for a transfer with its last segment not yet sent
+            raise RejectError(messages.RejectMsg.Reason.UNEXPECTED)
 
         if self._config.modulate_target_ack_time is not None:
             delta_b = length - self._segment_last_ack_len
